@@ -288,7 +288,7 @@ class GuardFlow(Forward):
         return state
 
 
-def guard_facts(func, noreturn=None):
+def guard_facts(func, noreturn=None, entry=frozenset()):
     g = GuardFlow(func, noreturn)
-    g.run(frozenset())
+    g.run(frozenset(entry))
     return g.at
